@@ -7,9 +7,12 @@ Line-protocol driver for the engine model (C01, C03, C06, C07, C08).
 Arguments: toggle names (f1 f3 f14 f31 f32) switch the model from as-is to repaired behaviour;
 `nof2` / `nof16` / `nof33` switch it back to the code before the fixes of F2 / F16 / F33 (historical); `desc` / `tape=1,0,2` choose the order of the two hash-set walks (Toggles.desc, .tape);
 `msg` appends the model's error message to crash lines;
-`core` runs the core model (QbiceVerif.Model.EngineCore) instead, answering "skip" for cases
-outside its fragment (input / normal / external nodes, ordered reads and unordered groups, `set` /
-`refresh` / `world` writes; firewalls and projections are outside).  `cyc` runs the fresh-evaluation cycle model (QbiceVerif.Model.Cycle, the one
+`core` runs the extended core model (QbiceVerif.Model.EngineCore, namespace `Qbice.CoreFw`: the
+REPAIRED design) instead, answering "skip" for cases outside its fragment: every acyclic program
+(each executor reads lower keys only) of input / normal / external / firewall / projection nodes
+(a projection reads firewalls and projections only), ordered reads and unordered groups, `set` /
+`refresh` / `world` writes.  Cases with firewall / projection nodes are answered only with the
+additional argument `corefull` (today's implementation still has finding F1 there).  `cyc` runs the fresh-evaluation cycle model (QbiceVerif.Model.Cycle, the one
 the C06 theorems are about): it answers the first session of a case and every round up to the
 second session (single-epoch evaluation from the empty store) and "skip" afterwards.
 -/
@@ -98,14 +101,25 @@ def Expr.hasWorld : Expr → Bool
   | .ifEq e _ a b => e.hasWorld || a.hasWorld || b.hasWorld
   | _ => false
 
-/-- the fragment of the core model: inputs; normal executors that read queries only; external
-    executors that read world cells only -/
-def coreFragment (kind : Kind) (e : Expr) : Bool :=
+/-- the keys an expression can read -/
+def Expr.reads : Expr → List Nat
+  | .read k => [k]
+  | .sumAll ks => ks
+  | .add a b => a.reads ++ b.reads
+  | .ifEq e _ a b => e.reads ++ a.reads ++ b.reads
+  | _ => []
+
+/-- the fragment of the core model: inputs; external executors that read world cells only; normal,
+    firewall and projection executors that read lower keys only (acyclic), a projection only
+    firewalls and projections.  `full = false`: no firewalls and projections. -/
+def coreFragment (full : Bool) (kinds : List Kind) (k : Nat) (kind : Kind) (e : Expr) : Bool :=
   match kind with
   | .input => true
-  | .normal => !e.hasWorld
   | .external => !e.hasRead
-  | _ => false
+  | .normal => !e.hasWorld && e.reads.all (· < k)
+  | .firewall => full && !e.hasWorld && e.reads.all (· < k)
+  | .projection => full && !e.hasWorld && e.reads.all fun x =>
+      x < k && (kinds[x]? == some Kind.firewall || kinds[x]? == some Kind.projection)
 
 def parseKind : String → Option Kind
   | "in" => some .input | "nm" => some .normal | "fw" => some .firewall
@@ -147,7 +161,7 @@ structure DS where
   unordered : Bool := false
   -- core model
   coreOk : Bool := true
-  cst : Qbice.Core.St := {}
+  cst : Qbice.CoreFw.St := {}
   -- cycle model
   cycOk : Bool := true
   kinds : List Kind := []
@@ -193,9 +207,9 @@ def showCoreSetRes : Qbice.Core.SetRes → String
   | .fresh => "Fresh" | .updated => "Updated" | .unchanged => "Unchanged"
   | .refreshed => "refreshed" | .world => "world"
 
-/-- the core model answers for programs of input / normal / external nodes (`coreFragment`); the
+/-- the core model answers for acyclic programs (`coreFragment`); the
     executor invocations of cases with unordered groups are printed as `X` (as the harness does) -/
-def stepCore (d : DS) (toks : List String) : DS × String :=
+def stepCore (full : Bool) (d : DS) (toks : List String) : DS × String :=
   match toks with
   | "case" :: _ => ({ unordered := toks.contains "unordered" }, "case")
   | "node" :: k :: kind :: dflt :: rest =>
@@ -203,15 +217,16 @@ def stepCore (d : DS) (toks : List String) : DS × String :=
     | some k, some kind, some dflt, some (e, []) =>
       if k != d.prog.length then (d, "bad-op") else
       ({ d with prog := d.prog ++ [{ kind := kind, dflt := dflt, prog := e.toProg .ret }], exprs := d.exprs ++ [e],
-                coreOk := d.coreOk && coreFragment kind e }, "ok")
+                kinds := d.kinds ++ [kind],
+                coreOk := d.coreOk && coreFragment full d.kinds k kind e }, "ok")
     | _, _, _, _ => (d, "bad-op")
   | "session" :: rest =>
     if !d.coreOk then (d, "skip") else
     match parseWrites rest with
     | none => (d, "bad-op")
     | some ws =>
-      let cp := Qbice.Core.ofProgram d.prog
-      match Qbice.Core.session cp (ws.map coreWrite) { d.cst with log := [] } with
+      let cp := Qbice.CoreFw.ofProgram d.prog
+      match Qbice.CoreFw.session cp (ws.map coreWrite) { d.cst with log := [] } with
       | .ok (rs, st) => ({ d with cst := st }, " ".intercalate (rs.map showCoreSetRes) ++ " |" ++ execsStr d.unordered st.log)
       | .error e => (d, "error " ++ toString (repr e))
   | "round" :: rest =>
@@ -219,8 +234,8 @@ def stepCore (d : DS) (toks : List String) : DS × String :=
     match rest.mapM String.toNat? with
     | none => (d, "bad-op")
     | some ks =>
-      let cp := Qbice.Core.ofProgram d.prog
-      match Qbice.Core.round cp (Qbice.Core.fuelFor cp) ks { d.cst with log := [] } with
+      let cp := Qbice.CoreFw.ofProgram d.prog
+      match Qbice.CoreFw.round cp (Qbice.CoreFw.fuelFor cp) ks { d.cst with log := [] } with
       | .ok (vs, st) => ({ d with cst := st }, " ".intercalate (vs.map toString) ++ " |" ++ execsStr d.unordered st.log)
       | .error e => (d, "error " ++ toString (repr e))
   | _ => (d, "bad-op")
@@ -273,13 +288,13 @@ def stepCyc (d : DS) (toks : List String) : DS × String :=
       | .error _ => ({ d with cycOk := false }, "crash panic")
   | _ => (d, "bad-op")
 
-partial def loop (h : IO.FS.Stream) (out : IO.FS.Stream) (core : Bool) (cyc : Bool) (msg : Bool) (t : Toggles) (d : DS) : IO Unit := do
+partial def loop (h : IO.FS.Stream) (out : IO.FS.Stream) (core : Bool) (corefull : Bool) (cyc : Bool) (msg : Bool) (t : Toggles) (d : DS) : IO Unit := do
   let line ← h.getLine
   if line.isEmpty then return ()
   let toks := (line.trimAscii.toString.splitOn " ").filter (· ≠ "")
-  let (d', o) := if core then stepCore d toks else if cyc then stepCyc d toks else stepFull t msg d toks
+  let (d', o) := if core then stepCore corefull d toks else if cyc then stepCyc d toks else stepFull t msg d toks
   out.putStrLn o
-  loop h out core cyc msg t d'
+  loop h out core corefull cyc msg t d'
 
 def main (args : List String) : IO Unit := do
   -- `tape=1,0,2`: the order tape for hash-set walks
@@ -287,4 +302,4 @@ def main (args : List String) : IO Unit := do
     | some a => ((a.drop 5).toString.splitOn ",").filterMap String.toNat?
     | none => []
   let t : Toggles := { tape := tape, f1 := args.contains "f1", f2 := !args.contains "nof2", f3 := args.contains "f3", f14 := args.contains "f14", f1p := args.contains "f1p", f1q := args.contains "f1q", f16 := !args.contains "nof16", f33 := !args.contains "nof33", f31 := args.contains "f31", f32 := args.contains "f32", desc := args.contains "desc" }
-  loop (← IO.getStdin) (← IO.getStdout) (args.contains "core") (args.contains "cyc") (args.contains "msg") t {}
+  loop (← IO.getStdin) (← IO.getStdout) (args.contains "core" || args.contains "corefull") (args.contains "corefull") (args.contains "cyc") (args.contains "msg") t {}
